@@ -164,6 +164,7 @@ type C16SSHServer struct {
 	*Listener
 	cfg      *ssh.ServerConfig
 	opts     C16SSHOpts
+	HostKey  ssh.PublicKey
 	Sessions chan *SSHSession
 }
 
@@ -238,7 +239,7 @@ func NewC16SSHServerOpts(seed uint64, o C16SSHOpts) (*C16SSHServer, error) {
 	if err != nil {
 		return nil, err
 	}
-	s := &C16SSHServer{Listener: l, cfg: cfg, opts: o, Sessions: make(chan *SSHSession, 64)}
+	s := &C16SSHServer{Listener: l, cfg: cfg, opts: o, HostKey: signer.PublicKey(), Sessions: make(chan *SSHSession, 64)}
 	go s.serve()
 	return s, nil
 }
